@@ -370,27 +370,29 @@ def procInitialize (F : Flags) (codec : Option String) : Res Bool :=
     else if F.initializeDefaultErrors then .error .unsupportedCodec else .ok false
   | none => if F.initializeDefaultErrors then .error .unsupportedCodec else .ok false
 
-/-- the loop `for i, track := range p.clientStreamTracks { … p.trackProcessors[p.init.Tracks[i].ID] = trackProc }`;
-    a later equal id overrides an earlier one, so new entries are put in front and read with `List.lookup`. -/
-def buildProcs (F : Flags) (init : List InitTrack) : Nat → Nat → List Track → List (Int × Proc) → Res (List (Int × Proc))
+/-- the loop `for i, track := range p.clientStreamTracks { … p.trackProcessors[p.init.Tracks[i].ID] = trackProc }`.
+    `its` is `p.init.Tracks[i:]`: indexing `p.init.Tracks[i]` with `i` running in lockstep with the range loop is taking
+    the head of that suffix, and it panics exactly when the suffix is empty. A later equal id overrides an earlier
+    one, so new entries are put in front and read with `List.lookup`. -/
+def buildProcs (F : Flags) : Nat → List InitTrack → List Track → List (Int × Proc) → Res (List (Int × Proc))
   | _, _, [], acc => .ok acc
-  | gidx, i, t :: rest, acc => do
+  | gidx, its, t :: rest, acc => do
     let dec ← procInitialize F t.codec
-    match init[i]? with
-    | none => .panic .index
-    | some it => buildProcs F init (gidx + 1) (i + 1) rest ((it.id, { track := gidx, clockRate := t.clockRate, hasDecoder := dec }) :: acc)
+    match its with
+    | [] => .panic .index
+    | it :: its' => buildProcs F (gidx + 1) its' rest ((it.id, { track := gidx, clockRate := t.clockRate, hasDecoder := dec }) :: acc)
 
 /-- `initializeTrackProcessors` -/
 def fmp4InitProcs (F : Flags) (s : FStream) (c : ClientSt) (lpt : PartTrack) : Res (ClientSt × List (Int × Proc)) := do
   let c1 ←
-    if s.isLeading then
+    (if s.isLeading then
       (pure { c with conv := some (.fmp4 { ts := findTimeScale s.init s.leadingTrackID, base := lpt.baseTime }) } : Res ClientSt)
     else
       match c.conv with
       | none => .error .terminated            -- `waitLeadingTimeConv` blocks until the context is cancelled
       | some (.fmp4 _) => pure c
-      | some (.ts _) => if F.checksConvKindFMP4 then .error .mixedContainers else pure c
-  let procs ← buildProcs F s.init s.firstIdx 0 s.tracks []
+      | some (.ts _) => if F.checksConvKindFMP4 then .error .mixedContainers else pure c)
+  let procs ← buildProcs F s.firstIdx s.init s.tracks []
   pure (c1, procs)
 
 /-- `leadingTimeConvFMP4(p.client)`: single-value type assertion -/
@@ -453,7 +455,7 @@ def fmp4ProcessSegment (F : Flags) (elapsed : Int) (s : FStream) (c : ClientSt) 
         | some procs => (pure (c, procs) : Res (ClientSt × List (Int × Proc)))
         | none => fmp4InitProcs F s c lpt)
       let c2 ←
-        if s.isLeading then
+        (if s.isLeading then
           (match dateTime with
           | none => do
             let _ ← assertFMP4 c1              -- `setLeadingNTPReceived`
@@ -466,7 +468,7 @@ def fmp4ProcessSegment (F : Flags) (elapsed : Int) (s : FStream) (c : ClientSt) 
               let dts ← f.convert lpt.baseTime lp.clockRate
               let f ← assertFMP4 c1
               pure { c1 with conv := some (.fmp4 { f with ntp := some (t, dts, lp.clockRate) }) })
-        else pure c1
+        else pure c1)
       let n := countKnown procs parts.flatten
       let cap : Nat := if F.chanPerSegment then n else clientMaxTracksPerStream.toNat
       let evs ← fmp4PushLoop F elapsed procs c2 parts.flatten
@@ -542,16 +544,17 @@ def tsProcessSample (F : Flags) (elapsed : Int) (s : TStream) (dateTime : Option
   let isLeadingTrack := i == s.leadingIdx
   let (st, c) ←
     (if isLeadingTrack then
-      let st := { st with leadingTrackFound := true }
-      if st.procsReady then (pure (st, c) : Res (TSState × ClientSt))
+      if st.procsReady then (pure ({ st with leadingTrackFound := true }, c) : Res (TSState × ClientSt))
       else if s.isLeading then
-        let td := (({} : Hls.Client.TimeConv.TimeDecoder).decode rawDTS).2
-        pure ({ st with procsReady := true }, { c with conv := some (.ts { td := td }) })
+        pure ({ st with leadingTrackFound := true, procsReady := true },
+              { c with conv := some (.ts { td := (({} : Hls.Client.TimeConv.TimeDecoder).decode rawDTS).2 }) })
       else
         match c.conv with
         | none => .error .terminated
-        | some (.ts _) => pure ({ st with procsReady := true }, c)
-        | some (.fmp4 _) => if F.checksConvKindTS then .error .mixedContainers else pure ({ st with procsReady := true }, c)
+        | some (.ts _) => pure ({ st with leadingTrackFound := true, procsReady := true }, c)
+        | some (.fmp4 _) =>
+          if F.checksConvKindTS then .error .mixedContainers
+          else pure ({ st with leadingTrackFound := true, procsReady := true }, c)
     else pure (st, c))
   if (!st.procsReady && F.procNilTS) = true then pure (st, c, [.dropped (s.firstIdx + i) pid])
   else do
@@ -878,36 +881,41 @@ def processAll (F : Flags) (elapsed : Int) : ClientSt → List (StreamIn × Star
 def hasSkip (evs : List Event) : Bool :=
   evs.any fun e => match e with | .delivered .. => false | _ => true
 
-/-- the whole client against a scripted server -/
-def clientRun (F : Flags) (elapsed : Int) (prim : Primary) (streams : List StreamIn) : Outcome :=
-  let pre : Res (List StreamIn) :=
-    match prim with
-    | .bad => .error .playlist
-    | .media => .ok (streams.take 1)
-    | .multi leadingFound audio =>
-      if (!leadingFound) = true then (if F.noVariant then .error .noVariants else .panic .nilDeref)
-      else match audio with
-        | none => .ok (streams.take 1)
-        | some false => if F.noGroup then .error .noGroup else .ok (streams.take 1)
-        | some true => .ok streams
-  match pre with
+/-- `clientPrimaryDownloader.run` up to the creation of the stream downloaders: which streams exist -/
+def selectStreams (F : Flags) (prim : Primary) (streams : List StreamIn) : Res (List StreamIn) :=
+  match prim with
+  | .bad => .error .playlist
+  | .media => .ok (streams.take 1)
+  | .multi leadingFound audio =>
+    if (!leadingFound) = true then (if F.noVariant then .error .noVariants else .panic .nilDeref)
+    else match audio with
+      | none => .ok (streams.take 1)
+      | some false => if F.noGroup then .error .noGroup else .ok (streams.take 1)
+      | some true => .ok streams
+
+/-- the streams run: tracks, `OnTracks`, segments, end -/
+def runStreams (F : Flags) (elapsed : Int) (ss : List StreamIn) : Outcome :=
+  match startAll F 0 0 ss with
   | .error e => .error e none
   | .panic k => .panic k
   | .wedge => .wedge
-  | .ok ss =>
-    match startAll F 0 0 ss with
-    | .error e => .error e none
-    | .panic k => .panic k
-    | .wedge => .wedge
-    | .ok started =>
-      let tracks := (started.map fun x => x.2.1.tracks).flatten
-      if (F.noTracks && tracks.isEmpty) = true then .error .noSupportedTracks none
-      else
-        match processAll F elapsed {} started with
-        | .error e => .error e (some (trackView tracks))
-        | .panic k => .panic k
-        | .wedge => .wedge
-        | .ok evs => if hasSkip evs then .skip (trackView tracks) evs else .deliver (trackView tracks) evs
+  | .ok started =>
+    let tracks := (started.map fun x => x.2.1.tracks).flatten
+    if (F.noTracks && tracks.isEmpty) = true then .error .noSupportedTracks none
+    else
+      match processAll F elapsed {} started with
+      | .error e => .error e (some (trackView tracks))
+      | .panic k => .panic k
+      | .wedge => .wedge
+      | .ok evs => if hasSkip evs then .skip (trackView tracks) evs else .deliver (trackView tracks) evs
+
+/-- the whole client against a scripted server -/
+def clientRun (F : Flags) (elapsed : Int) (prim : Primary) (streams : List StreamIn) : Outcome :=
+  match selectStreams F prim streams with
+  | .error e => .error e none
+  | .panic k => .panic k
+  | .wedge => .wedge
+  | .ok ss => runStreams F elapsed ss
 
 def Outcome.safe : Outcome → Prop
   | .panic _ => False
